@@ -1,5 +1,6 @@
 import Clover.Generated.Facts
 import Clover.Proofs.Translated
+import Clover.Proofs.TranslatedSat
 import Clover.Model.Criteria
 import Clover.Proofs.KindInvariance
 /-! # C16 — criteria obey Boolean algebra and literal normalisation -/
@@ -82,6 +83,20 @@ variable (likeFn : LikeFn) (fnFam : FnFam)
 theorem literal_kind_invariance (d : Doc) (hd : NumsOK (.obj d)) (c c' : Crit)
     (h : Crit.SameUpToKinds c c') (hc : c.LitsOK) (hc' : c'.LitsOK) :
     sat likeFn fnFam d c = sat likeFn fnFam d c' := sat_sameUpToKinds likeFn fnFam d hd h hc hc'
+
+/-- (translated, regenerated from the source on every run) **Criteria evaluation, from the source alone**: a criterion
+    built from Exists, the five comparisons, And, Or and Not, evaluated on a document by the translated source functions
+    only (`Translated.srcSat`), answers what the model's `sat` answers - for every such criterion, of any depth, and
+    every document; the source's `panic("unreachable code")` is never reached.  The Boolean laws proved above for `sat`
+    are thereby laws of the code as it is written today. -/
+theorem source_criteria_evaluation_is_the_models (likeFn : LikeFn) (fnFam : FnFam) (d : Doc) (c : Crit)
+    (h : Translated.InFragment c) : Translated.srcSat d c = some (sat likeFn fnFam d c) :=
+  Translated.srcSat_eq likeFn fnFam d c h
+
+/-- the fragment is inhabited by the criteria one actually writes: `not (a >= 1 and (b = 2 or exists c))` -/
+example : Translated.InFragment (.not (.and (.cmp .ge [97] (.lit (.num (.int 1))))
+    (.or (.cmp .eq [98] (.lit (.num (.int 2)))) (.exists_ [99])))) := by
+  simp [Translated.InFragment]
 
 /-- (translated, regenerated from the source on every run) **the connectives as the current source evaluates them**:
     `BinaryCriteria.Satisfy` (and / or) and `NotCriteria.Satisfy`, with each sub-criterion standing for its answer on the
